@@ -211,6 +211,106 @@ PostRefreshFull(cur, r, u, p, allow, coll) ==
      <<SameUsage(u, [ZeroUsage EXCEPT !.rpc = p.cp, !.coll = RiskedCollateral(cur)]), "refresh usage">> >>
 
 -----------------------------------------------------------------------------
+(* Part 3: admission rules of the RPC requests (what a host must refuse before it
+   calls a constructor; rhp/v4/validation.go).  A request that passes must lead
+   to a consensus-valid result, so every gate is stated against the state the
+   consensus rules will see: the host's CURRENT tip (not the tip the price table
+   was signed at), the sectors the contract STORES (not its capacity).
+
+   Heights are BigNat here (a request may carry any uint64).  Every Gate*
+   operator returns the name of the first gate that refuses the request, "ok" if
+   none does.  Request records:
+     form     [pv, feeZero, basisZero, nIn, tip, ptip, ph, maxDur, allow, coll, maxColl, sp, pc, q]
+     renew    [pv, feeZero, basisZero, tip, ptip, ph, exPh, maxDur, allow, coll, maxColl, sp, pc, q, fs]
+     refresh  [pv, feeZero, basisZero, tip, ptip, exPh, allow, coll, maxColl, sp, pc, q, partial, exTc, exMh]
+     append   [pv, n]
+     free     [pv, fs, runs]        runs: sequence of [from, cnt] (the indices from .. from+cnt-1, in request order)
+     roots    [pv, fs, off, len]
+     fund     [idZero, sigZero, n, zeroAcct, zeroAmt]
+     replenish[idZero, sigZero, n, targetZero, zeroAcct]
+   pv: the price table is unexpired and carries the host's signature;  q = floor(coll / pc) when pc # 0
+   (logged by the harness, verified here by IsQuot).                                         *)
+MaxU64 == Sub(Pow2(64), One)
+MinContractDuration == 18
+MaxSectorBatch == 262144            \* 2^40 bytes / SectorSize
+MaxAccountBatch == 1000
+PWn == FromInt(ProofWindow)
+
+\* the earliest proof height a host may accept: MinContractDuration beyond the later of its current tip
+\* and the tip of the price table (saturating at 2^64 - 1)
+MinProofHeight(tip, ptip) ==
+  LET h == IF Le(tip, ptip) THEN ptip ELSE tip IN
+  IF Lt(Sub(MaxU64, FromInt(MinContractDuration)), h) THEN MaxU64 ELSE Add(h, FromInt(MinContractDuration))
+\* duration the prices are charged for
+DurationOf(ph, ptip) == Sub(Add(ph, PWn), ptip)
+QuotOK(r) == r.pc = Zero \/ IsQuot(r.coll, r.pc, r.q)
+MinAllowanceOf(r) == IF r.pc = Zero THEN Zero ELSE Mul(r.sp, r.q)
+
+GateForm(r) ==
+  IF ~r.pv THEN "prices" ELSE IF r.feeZero THEN "fee" ELSE IF r.basisZero THEN "basis" ELSE IF r.nIn = 0 THEN "inputs" ELSE
+  IF Lt(r.ph, MinProofHeight(r.tip, r.ptip)) THEN "proof-height" ELSE
+  IF Lt(Sub(MaxU64, PWn), r.ph) THEN "proof-height-max" ELSE
+  IF Lt(r.maxDur, DurationOf(r.ph, r.ptip)) THEN "duration" ELSE
+  IF r.allow = Zero THEN "allowance-zero" ELSE
+  IF Lt(r.maxColl, r.coll) THEN "collateral" ELSE
+  IF ~QuotOK(r) THEN "case-quotient" ELSE
+  IF Lt(r.allow, MinAllowanceOf(r)) THEN "allowance-min" ELSE "ok"
+
+GateRenew(r) ==
+  IF ~r.pv THEN "prices" ELSE IF r.feeZero THEN "fee" ELSE IF r.basisZero THEN "basis" ELSE
+  IF Le(r.ph, r.exPh) THEN "proof-height-existing" ELSE
+  IF Lt(r.ph, MinProofHeight(r.tip, r.ptip)) THEN "proof-height" ELSE
+  IF Lt(Sub(MaxU64, PWn), r.ph) THEN "proof-height-max" ELSE
+  IF Lt(r.maxDur, DurationOf(r.ph, r.ptip)) THEN "duration" ELSE
+  IF r.allow = Zero THEN "allowance-zero" ELSE
+  \* the host risks collateral for the stored data over the whole new duration, on top of the requested one
+  IF Lt(r.maxColl, Add(r.coll, Mul(Mul(r.pc, r.fs), DurationOf(r.ph, r.ptip)))) THEN "collateral" ELSE
+  IF ~QuotOK(r) THEN "case-quotient" ELSE
+  IF Lt(r.allow, MinAllowanceOf(r)) THEN "allowance-min" ELSE "ok"
+
+\* a refresh keeps the proof height: the existing one must still be far enough away
+GateRefresh(r) ==
+  IF ~r.pv THEN "prices" ELSE IF r.feeZero THEN "fee" ELSE IF r.basisZero THEN "basis" ELSE
+  IF Le(r.exPh, MinProofHeight(r.tip, r.ptip)) THEN "proof-height-existing" ELSE
+  IF r.allow = Zero THEN "allowance-zero" ELSE
+  IF ~QuotOK(r) THEN "case-quotient" ELSE
+  IF Lt(r.allow, MinAllowanceOf(r)) THEN "allowance-min" ELSE
+  IF Lt(r.maxColl, Add(IF r.partial THEN Sub(r.exTc, r.exMh) ELSE r.exTc, r.coll)) THEN "collateral" ELSE "ok"
+
+GateAppend(r) == IF ~r.pv THEN "prices" ELSE IF r.n = 0 THEN "empty" ELSE IF r.n > MaxSectorBatch THEN "batch" ELSE "ok"
+
+\* sectors a contract stores (int; filesizes stay below 2^50)
+StoredSectors(fs) == ToInt(DivSS(fs))
+RECURSIVE RunsCount(_)
+RunsCount(runs) == IF runs = <<>> THEN 0 ELSE Head(runs).cnt + RunsCount(Tail(runs))
+\* only stored sectors can be freed, each at most once: otherwise the constructor's filesize arithmetic
+\* (filesize - SectorSize * deletions) leaves the contract's real size or wraps around
+GateFree(r) ==
+  LET sectors == StoredSectors(r.fs)  runs == r.runs IN
+  IF ~r.pv THEN "prices" ELSE IF RunsCount(runs) > MaxSectorBatch THEN "batch" ELSE
+  IF \E i \in DOMAIN runs : runs[i].cnt > 0 /\ runs[i].from + runs[i].cnt > sectors THEN "index" ELSE
+  IF \E i, j \in DOMAIN runs : i < j /\ runs[i].cnt > 0 /\ runs[j].cnt > 0
+                                /\ runs[i].from < runs[j].from + runs[j].cnt /\ runs[j].from < runs[i].from + runs[i].cnt THEN "duplicate"
+  ELSE "ok"
+
+GateRoots(r) ==
+  LET sectors == StoredSectors(r.fs) IN
+  IF ~r.pv THEN "prices" ELSE IF r.len = 0 THEN "length-zero" ELSE
+  IF r.off > sectors \/ r.len > sectors - r.off THEN "range" ELSE IF r.len > MaxSectorBatch THEN "batch" ELSE "ok"
+
+GateFund(r) ==
+  IF r.idZero THEN "contract-id" ELSE IF r.sigZero THEN "signature" ELSE IF r.n = 0 THEN "empty" ELSE
+  IF r.n > MaxAccountBatch THEN "batch" ELSE IF r.zeroAcct THEN "account" ELSE IF r.zeroAmt THEN "amount" ELSE "ok"
+GateReplenish(r) ==
+  IF r.idZero THEN "contract-id" ELSE IF r.sigZero THEN "signature" ELSE IF r.n = 0 THEN "empty" ELSE
+  IF r.n > MaxAccountBatch THEN "batch" ELSE IF r.targetZero THEN "target" ELSE IF r.zeroAcct THEN "account" ELSE "ok"
+
+GateOf(rpc, r) ==
+  CASE rpc = "form" -> GateForm(r) [] rpc = "renew" -> GateRenew(r) [] rpc \in {"refreshP", "refreshF"} -> GateRefresh(r)
+    [] rpc = "append" -> GateAppend(r) [] rpc = "free" -> GateFree(r) [] rpc = "roots" -> GateRoots(r)
+    [] rpc = "fund" -> GateFund(r) [] rpc = "replenish" -> GateReplenish(r)
+
+-----------------------------------------------------------------------------
 (* v1-era contracts (rhp/v2, rhp/v3): consensus tax after the tax hardfork *)
 SiafundCount == 10000
 TaxV1(payout) == MulSmall(DivSmall(DivSmall(MulSmall(payout, 39), 1000), SiafundCount), SiafundCount)
